@@ -323,12 +323,14 @@ Proof.
 Qed.
 
 (* C09: full data *)
-Definition trans_spec (strong : bool) (tmin : Q) (i0 : list node) (out : simout) (evs : list ev) (txs : list tx) : Prop :=
+Definition trans_specW (tmin : Q) (i0 : list node) (out : simout) (evs : list ev) (txs : list tx) : Prop :=
   (exists fd, so_full out = Some fd /\ fd_trans fd = map (fun u => (tmin, None, u)) i0 ++ txs) /\
   so_rows out = log_arrays (gnodes g) [stS; stI] tmin (st_init i0 []) evs /\
   length txs = cinf evs /\
-  valid_logT g (st_init i0 []) evs txs = true /\
-  (strong = true -> valid_logb g SIS (st_init i0 []) evs txs = true /\ strict_chron evs txs).
+  valid_logT g (st_init i0 []) evs txs = true.
+Definition trans_spec (strong : bool) (tmin : Q) (i0 : list node) (out : simout) (evs : list ev) (txs : list tx) : Prop :=
+  trans_specW tmin i0 out evs txs /\
+  (if strong then valid_logb g SIS (st_init i0 []) evs txs = true /\ strict_chron evs txs else True).
 
 Theorem fsis_C09 : forall tau gamma tmax tmin i0 fuel ds out tr,
   xlt tmin tmax = true -> NoDup i0 -> incl i0 (gnodes g) ->
@@ -338,8 +340,8 @@ Proof.
   intros tau gamma tmax tmin i0 fuel ds out tr Hv Hi Hinc H.
   destruct (fsis_output g Hnd Hadj tau gamma tmax tmin i0 true fuel ds out tr Hv Hi Hinc H) as [evs [txs [HO Hs]]].
   exists evs, txs. destruct HO as [_ B _ _ E F G T _ _]. destruct (T eq_refl) as [fd [T1 [T2 _]]].
-  split; [exists fd; split; assumption|]. split; [exact B|]. split; [exact G|]. split; [exact E|].
-  intros _. split; [apply F; reflexivity|exact Hs].
+  split; [split; [exists fd; split; assumption|]; split; [exact B|]; split; [exact G|exact E]|].
+  split; [apply F; reflexivity|exact Hs].
 Qed.
 
 Theorem nmsis_C09 : forall dur delays tmax tmin i0 fuel out,
@@ -350,8 +352,17 @@ Proof.
   intros dur delays tmax tmin i0 fuel out Hv Hi Hinc Hr H.
   destruct (nmsis_output g Hnd Hadj dur delays tmax tmin i0 true fuel out Hv Hi Hinc Hr H) as [evs [txs HO]].
   exists evs, txs. destruct HO as [_ B _ _ E F G T _ _]. destruct (T eq_refl) as [fd [T1 [T2 _]]].
-  split; [exists fd; split; assumption|]. split; [exact B|]. split; [exact G|]. split; [exact E|].
-  intro K. discriminate K.
+  split; [split; [exists fd; split; assumption|]; split; [exact B|]; split; [exact G|exact E]|].
+  exact I.
+Qed.
+
+Theorem nmsis_C09W : forall dur delays tmax tmin i0 fuel out,
+  xlt tmin tmax = true -> NoDup i0 -> incl i0 (gnodes g) -> rules_ok dur delays ->
+  nm_run g dur delays tmax tmin true fuel i0 = Ok out ->
+  exists evs txs, trans_specW tmin i0 out evs txs.
+Proof.
+  intros dur delays tmax tmin i0 fuel out Hv Hi Hinc Hr H.
+  destruct (nmsis_C09 dur delays tmax tmin i0 fuel out Hv Hi Hinc Hr H) as [evs [txs [K _]]]. exists evs, txs. exact K.
 Qed.
 
 Theorem nmsis_C09_strict : forall dur delays tmax tmin i0 fuel out,
@@ -362,16 +373,16 @@ Proof.
   intros dur delays tmax tmin i0 fuel out Hv Hi Hinc Hr Hs H.
   destruct (nmsis_output_strict g Hnd Hadj dur delays tmax tmin i0 true fuel out Hv Hi Hinc Hr Hs H) as [evs [txs [HO Hst]]].
   exists evs, txs. destruct HO as [_ B _ _ E F G T _ _]. destruct (T eq_refl) as [fd [T1 [T2 _]]].
-  split; [exists fd; split; assumption|]. split; [exact B|]. split; [exact G|]. split; [exact E|].
-  intros _. split; [apply F; reflexivity|exact Hst].
+  split; [split; [exists fd; split; assumption|]; split; [exact B|]; split; [exact G|exact E]|].
+  split; [apply F; reflexivity|exact Hst].
 Qed.
 
 (* C10 *)
 Definition summary_spec (tmin : Q) (i0 : list node) (out : simout) (evs : list ev) : Prop :=
   exists fd, so_full out = Some fd /\
+    so_rows out = log_arrays (gnodes g) [stS; stI] tmin (st_init i0 []) evs /\
     (increasing tmin evs = true ->
        fd_hist fd = iv_hist (log_inv (gnodes g) [stS; stI] tmin (st_init i0 []) evs) /\
-       so_rows out = log_arrays (gnodes g) [stS; stI] tmin (st_init i0 []) evs /\
        (gnodes g <> [] ->
         summary (log_inv (gnodes g) [stS; stI] tmin (st_init i0 []) evs) None = Ok (so_rows out))).
 
@@ -379,7 +390,7 @@ Lemma eo_summary_spec : forall tmin tmax i0 chk out evs txs,
   esis_output g tmin tmax i0 chk true out evs txs -> summary_spec tmin i0 out evs.
 Proof.
   intros tmin tmax i0 chk out evs txs [_ B _ _ _ _ _ T _ S]. destruct (T eq_refl) as [fd [T1 [_ T3]]].
-  exists fd. split; [exact T1|]. intro Hi. split; [apply T3; exact Hi|]. split; [exact B|].
+  exists fd. split; [exact T1|]. split; [exact B|]. intro Hi. split; [apply T3; exact Hi|].
   intro Hne. apply S; assumption.
 Qed.
 
@@ -401,6 +412,49 @@ Proof.
   intros dur delays tmax tmin i0 fuel out Hv Hi Hinc Hr H.
   destruct (nmsis_output g Hnd Hadj dur delays tmax tmin i0 true fuel out Hv Hi Hinc Hr H) as [evs [txs HO]].
   exists evs. eapply eo_summary_spec. exact HO.
+Qed.
+
+(* the same with an observable hypothesis: the returned times are strictly increasing *)
+Lemma ascending_log_rows : forall nodes ps (evs : list Investigation.event) st prev,
+  ascending (prev :: map fst (log_rows nodes ps st evs)) = increasing prev evs.
+Proof.
+  intros nodes ps. induction evs as [|e evs IH]; intros st prev; [reflexivity|].
+  cbn [log_rows map fst increasing]. rewrite <- (IH (fupdN st (ev_u e) (ev_s e)) (ev_t e)). reflexivity.
+Qed.
+
+Lemma summary_spec_obs : forall tmin i0 out evs, summary_spec tmin i0 out evs ->
+  ascending (map fst (so_rows out)) = true -> gnodes g <> [] ->
+  exists fd, so_full out = Some fd /\
+    summary (mkInv (gnodes g) (fd_hist fd) None (Some [stS; stI])) None = Ok (so_rows out).
+Proof.
+  intros tmin i0 out evs [fd [F1 [F2 F3]]] Ha Hne. exists fd. split; [exact F1|].
+  assert (Hi : increasing tmin evs = true).
+  { rewrite F2 in Ha. unfold log_arrays in Ha. cbn [map fst] in Ha. rewrite ascending_log_rows in Ha. exact Ha. }
+  destruct (F3 Hi) as [K1 K2]. rewrite K1. apply K2. exact Hne.
+Qed.
+
+Theorem fsis_C10_obs : forall tau gamma tmax tmin i0 fuel ds out tr,
+  xlt tmin tmax = true -> NoDup i0 -> incl i0 (gnodes g) -> gnodes g <> [] ->
+  exec (fast_SIS g tau gamma tmax (Some i0) None tmin true fuel) ds [] = (Ok out, tr) ->
+  ascending (map fst (so_rows out)) = true ->
+  exists fd, so_full out = Some fd /\
+    summary (mkInv (gnodes g) (fd_hist fd) None (Some [stS; stI])) None = Ok (so_rows out).
+Proof.
+  intros tau gamma tmax tmin i0 fuel ds out tr Hv Hi Hinc Hne H Ha.
+  destruct (fsis_C10 tau gamma tmax tmin i0 fuel ds out tr Hv Hi Hinc H) as [evs K].
+  apply (summary_spec_obs tmin i0 out evs K Ha Hne).
+Qed.
+
+Theorem nmsis_C10_obs : forall dur delays tmax tmin i0 fuel out,
+  xlt tmin tmax = true -> NoDup i0 -> incl i0 (gnodes g) -> gnodes g <> [] -> rules_ok dur delays ->
+  nm_run g dur delays tmax tmin true fuel i0 = Ok out ->
+  ascending (map fst (so_rows out)) = true ->
+  exists fd, so_full out = Some fd /\
+    summary (mkInv (gnodes g) (fd_hist fd) None (Some [stS; stI])) None = Ok (so_rows out).
+Proof.
+  intros dur delays tmax tmin i0 fuel out Hv Hi Hinc Hne Hr H Ha.
+  destruct (nmsis_C10 dur delays tmax tmin i0 fuel out Hv Hi Hinc Hr H) as [evs K].
+  apply (summary_spec_obs tmin i0 out evs K Ha Hne).
 Qed.
 
 End Corollaries.
